@@ -22,11 +22,11 @@ C = lambda n: ('c', n)      # noqa
 D = {f'd{i}': (0, 255) for i in range(6)}
 
 
-def mk(sid, prog, hi, end='sym', consts=None, start=None, **cfg):
+def mk(sid, prog, hi, end='sym', consts=None, start=None, width=24, **cfg):
     cs = dict(D)
     cs.update(consts or {})
     cfgargs = dict(consts=cs, **cfg)
-    p = dict(prog={'main.asm': prog}, cfgargs=cfgargs, props=['C03', 'C14'], binary=True, width=24,
+    p = dict(prog={'main.asm': prog}, cfgargs=cfgargs, props=['C03', 'C14'], binary=True, width=width,
              start=start if start is not None else Sym('ws', 0, hi), fill=Sym('wf', -300, 300), expect=['ok'])
     if end == 'sym':
         p['end'] = Sym('we', 0, hi)
@@ -69,4 +69,23 @@ def shapes(tier, seed):
                 [('org', V('a1'), None), ('data', '.byte', [V('d0'), V('d1'), V('d2')]),
                  ('org', ('+', V('a1'), V('gap')), None), ('data', '.2byte', [V('d3')])],
                 hi, end=11, start=6, consts={'a1': (0, 12), 'gap': (3, 7)}))
+    # seeded random sparse programs: concrete placement (origin and .org constants), symbolic window / fill / data
+    import random
+    from . import c02
+    rnd = random.Random(300 + seed)
+    for i in range(20 if tier == 'quick' else 300):
+        prog, syms = c02.random_program(rnd, rnd.randint(4, 8))
+        out = []
+        for st in prog:
+            if st[0] == 'org':
+                st = ('org', C(rnd.randint(0, far + 4)), None)
+            if st[0] == 'align':
+                st = ('align', C(rnd.choice([2, 4, 3])))
+            if st[0] in ('fill', 'zero') and st[1][0] == 'v':
+                st = (st[0], C(rnd.randint(0, 3))) + tuple(st[2:])
+            out.append(st)
+        consts = {k: c02.SYMS[k] for k in syms if k in ('v2',)}
+        end = rnd.choice(['sym', 'sym', None])
+        S.append(mk(f'rnd:{seed}:{i}:{"end" if end else "noend"}', out, hi, end=end, consts=consts, origin=rnd.randint(0, 6), width=40))
+        S[-1].params['expect'] = []
     return S
